@@ -29,6 +29,17 @@ PID = "C04"
 HI_PREC = 8          # SOXR_HI_PREC_CLOCK
 
 
+MAX_REPLAYS = 10
+
+
+def viol(ctx, what, replay, no_input=False):
+    """ctx.violation, but at most MAX_REPLAYS replay files from this module per run (the rest are counted)"""
+    n = ctx.cov.get("numeric_violations", 0)
+    ctx.cov["numeric_violations"] = n + 1
+    if n < MAX_REPLAYS:
+        ctx.violation(what, replay, no_input)
+
+
 def eng_eps(engine):
     return 2.0 ** -22 if engine.startswith("cr32") else 2.0 ** -50
 
@@ -215,7 +226,7 @@ def run_numeric(ctx, quick):
         if "skipped" in r:
             ctx.count("numeric_skipped"); continue
         if "error" in r:
-            ctx.violation("C04 numeric: ramp run failed: %s (%s)" % (r["error"], P.label(r["cfg"])), {"cfg": r["cfg"], "oracle": "ramp"}, no_input=True)
+            viol(ctx, "C04 numeric: ramp run failed: %s (%s)" % (r["error"], P.label(r["cfg"])), {"cfg": r["cfg"], "oracle": "ramp"}, no_input=True)
             continue
         tol, tolc = ramp_tolerance(r)
         worst = max(worst, r["err"] / tol, r["errc"] / tolc)
@@ -223,7 +234,7 @@ def run_numeric(ctx, quick):
         ctx.hist("dist_numeric_engine", r["engine"])
         ctx.count("numeric_ramp_frames_compared", r["n"])
         if r["err"] > tol or r["errc"] > tolc:
-            ctx.violation("C04 fails on the real code: ramp read-back: about the ramp's zero crossing the output reads up to %.6g input periods off t_k = k*irate/orate "
+            viol(ctx, "C04 fails on the real code: ramp read-back: about the ramp's zero crossing the output reads up to %.6g input periods off t_k = k*irate/orate "
                           "(tolerance %.3g); over the whole stream up to %.6g at t = %.3f (tolerance %.3g = N/2*(2^(1-bits) + 8 eps), N = %d, mean offset %.3g) (%s)" % (
                               r["errc"], tolc, r["err"], r["at"], tol, r["N"], r["mean"], P.label(r["cfg"])),
                           {"cfg": r["cfg"], "oracle": "ramp", "N": r["N"], "err": r["err"], "err_centre": r["errc"], "mean": r["mean"], "tolerance": [tol, tolc], "plan": r["plan"]})
@@ -240,7 +251,7 @@ def run_numeric(ctx, quick):
         if "skipped" in r:
             ctx.count("numeric_skipped"); continue
         if "error" in r:
-            ctx.violation("C04 numeric: impulse run failed: %s (%s)" % (r["error"], P.label(r["cfg"])), {"cfg": r["cfg"], "oracle": "impulse"}, no_input=True)
+            viol(ctx, "C04 numeric: impulse run failed: %s (%s)" % (r["error"], P.label(r["cfg"])), {"cfg": r["cfg"], "oracle": "impulse"}, no_input=True)
             continue
         distinct.add(("impulse", r["sig"]))
         bits = r["bits"] or 16.0
@@ -254,7 +265,7 @@ def run_numeric(ctx, quick):
         elif abs(r["peak"] - r["kc"]) > (0.5 if r["exact"] else 1.0) * max(1.0, 1.0):
             bad = "impulse response peaks at output frame %d, the impulse is at %.4f" % (r["peak"], r["kc"])
         if bad:
-            ctx.violation("C04 fails on the real code: %s (%s)" % (bad, P.label(r["cfg"])),
+            viol(ctx, "C04 fails on the real code: %s (%s)" % (bad, P.label(r["cfg"])),
                           {"cfg": r["cfg"], "oracle": "impulse", "n0": r["n0"], "peak": r["peak"], "centroid": r["centroid"], "expected": r["kc"], "plan": r["plan"]})
     ctx.cov["numeric_impulse_worst_fraction_of_tolerance"] = round(worst, 4)
 
@@ -280,7 +291,7 @@ def run_numeric(ctx, quick):
         if "skipped" in r:
             ctx.count("numeric_skipped"); continue
         if "error" in r:
-            ctx.violation("C04 numeric: long-stream run failed: %s (%s)" % (r["error"], P.label(r["job"]["cfg"])), {"job": r["job"], "oracle": "long"}, no_input=True)
+            viol(ctx, "C04 numeric: long-stream run failed: %s (%s)" % (r["error"], P.label(r["job"]["cfg"])), {"job": r["job"], "oracle": "long"}, no_input=True)
             continue
         job = r["job"]
         distinct.add(("long", r["sig"], r["hiprec"], r["irrational"]))
@@ -295,7 +306,7 @@ def run_numeric(ctx, quick):
             if abs(w["dt"]) > tol or abs(20 * math.log10(max(w["amp"], 1e-300))) > 0.4:
                 if _known_f1(r, known):
                     ctx.known("F1", known["F1"]["what"]); continue
-                ctx.violation("C04 fails on the real code: after %d output frames (of %d input frames) a %.4f cycles/frame tone is reproduced %.3g input periods "
+                viol(ctx, "C04 fails on the real code: after %d output frames (of %d input frames) a %.4f cycles/frame tone is reproduced %.3g input periods "
                               "off the time axis t_k = k*irate/orate (tolerance %.3g; amplitude %.6f) (%s, %s clock, %s)" % (
                                   w["k"], job["N"], r["f"], w["dt"], tol, w["amp"], P.label(job["cfg"]), "hi-prec" if r["hiprec"] else "standard",
                                   "irrational" if r["irrational"] else "rational"),
